@@ -104,6 +104,16 @@ theorem interleaving_eq_sequential {a b : H} (hab : a ≠ b) (xs ys : List (Op S
 
 end commute
 
+/-- Non-vacuity of `interleaving_eq_sequential`: a trace of two handles with read-only calls. -/
+example :
+    let tr : List (Fin 2 × Op Nat Nat Nat) := [(0, ⟨fun sh s => (s + 1, s + sh, sh)⟩), (1, ⟨fun sh s => (s + 1, s + sh, sh)⟩)]
+    (∀ e ∈ tr, e.2.ReadOnly) ∧ (∀ e ∈ tr, e.1 = 0 ∨ e.1 = 1) := by
+  refine ⟨fun e he => ?_, fun e he => ?_⟩
+  · simp only [List.mem_cons, List.not_mem_nil, or_false] at he
+    rcases he with rfl | rfl <;> exact fun _ _ => rfl
+  · simp only [List.mem_cons, List.not_mem_nil, or_false] at he
+    rcases he with rfl | rfl <;> simp
+
 /-- A call in the style of the tar reader's former `static int default_inode`: the result is the shared
 counter, which the call increments. -/
 def nextInode : Op Nat Unit Nat := ⟨fun sh _ => ((), sh + 1, sh + 1)⟩
@@ -246,6 +256,9 @@ theorem flagFirst_race (f : Nat → Nat) (n j : Nat) (hj : j < n) (hf : f j ≠ 
   refine ⟨{ init := [], use := [], sawFlag := true, obs := [(j, some 0)] }, ?_, rfl, rfl, ?_⟩
   · simp [s, start, bss, flagFirst, reads, Sys.run, Sys.step, stepThread, Mem.apply, observe, hj]
   · rw [final_get]; simp [hj]; exact fun h => hf h.symm
+
+/-- The lha instance: 256 slots, slot 1 of `crc16tbl[0]` is 0xC0C1 ≠ 0. -/
+example : (1 : Nat) < 256 ∧ (fun i => if i = 1 then 0xC0C1 else 0) 1 ≠ 0 := by decide
 
 theorem flagFirst_unsafe : ¬ FlagFirstSafe := by
   intro h
